@@ -45,6 +45,9 @@ QUICK: list[tuple[int, int, int, int, str, str, dict[str, Any]]] = [
     (2, 3, 5, 0, 'line', 'cz_rz_sx', dict(measure='mid', workers=2)),
     (3, 3, 4, 1, 'line', 'cz_u3', dict(p3=0.0, workers=4)),
     (4, 3, 4, 0, 'line', 'cx_u3', dict(p3=0.0, workers=4)),
+    # a circular shift of the qubits between single-qubit layers: permutation-
+    # aware mapping (level 4) should absorb it as a 3-cycle on a 3-qudit block
+    (4, 3, 0, 0, 'line', 'cx_u3', dict(cyclic=True, workers=4)),
 ]
 QUICK_TIMEOUT = {1: 300.0, 2: 300.0, 3: 420.0, 4: 420.0}
 
@@ -62,11 +65,31 @@ def make_case(seed: int, idx: int, tpl: tuple[Any, ...]) -> dict[str, Any]:
     lvl, n, depth, extra, graph, gs, o = tpl
     rng = core.rng_for(seed, PID, 0, idx)
     radix = int(o.get('radix', 2))
-    inp = cc.gen_circuit_spec(
+    if o.get('cyclic'):
+        from vlib import gen
+        ops: list[list[Any]] = []
+        for q in range(n):
+            ops.append(['U3', [q], gen.rand_params(rng, 3, 'generic')])
+        order = [int(x) for x in rng.permutation(n)]
+        for a, b in zip(order, order[1:]):
+            ops.append(['SWAP', [a, b], []])
+        for q in range(n):
+            ops.append(['U3', [q], gen.rand_params(rng, 3, 'generic')])
+        inp = {'kind': 'circuit', 'radixes': [2] * n, 'ops': ops}
+    else:
+        inp = _gen_spec(rng, n, depth, radix, o)
+    return _finish_case(rng, idx, lvl, n, depth, extra, graph, gs, o, inp, radix)
+
+
+def _gen_spec(rng: Any, n: int, depth: int, radix: int, o: dict[str, Any]) -> dict[str, Any]:
+    return cc.gen_circuit_spec(
         rng, n, depth, radix=radix, p3=o.get('p3', 0.12),
         force3=o.get('force3', False), barriers=o.get('barriers', 0),
         measure=o.get('measure', ''), block=o.get('block', False),
     )
+
+
+def _finish_case(rng: Any, idx: int, lvl: int, n: int, depth: int, extra: int, graph: str, gs: str, o: dict[str, Any], inp: dict[str, Any], radix: int) -> dict[str, Any]:
     model = cc.gen_model_spec(rng, n + extra, graph, gs, radix=radix)
     cfg = {
         'level': lvl, 'mss': int(o.get('mss', 3)),
@@ -125,6 +148,9 @@ def thorough_templates(seed: int) -> list[tuple[Any, ...]]:
                 o['barriers'] = 0
                 o['measure'] = ''
                 depth = min(depth, 8)
+            if lvl == 4 and n == 3 and rng.random() < 0.4:
+                o = dict(cyclic=True, workers=4, eps=o['eps'], mss=3)
+                extra, graph, gs = 0, 'line', 'cx_u3'
             tpls.append((lvl, n, depth, extra, graph, gs, o))
     return tpls
 
